@@ -161,7 +161,8 @@ def handleCallDec (ts : List String) : String :=
           | some v => "ok " ++ hexOfString (canon true (.obj (encodeAdj "method" "parameters" v c.args))) ++ " " ++ flagsTok c.flags
           | none => "json"
       -- oracle: flags are exactly the (last) boolean values of the flag members, absent = false, and the
-      -- decoded method never shows a flag member; a frame whose flag member is not a boolean is refused
+      -- decoded method never shows a flag member; a frame whose flag member is not a boolean is refused;
+      -- a well-formed call is never refused
       let h : Bool := match j, obs with
         | .obj ms, ["ok", mh, fl] =>
           let want (k : String) : Option Bool := match (ms.filter (·.1 = k)).getLast? with
@@ -172,6 +173,9 @@ def handleCallDec (ts : List String) : String :=
           let shown := strOfHex mh
           flagsOK && decide ((shown.splitOn "\"oneway\"").length ≤ 1) && decide ((shown.splitOn "\"more\"").length ≤ 1) &&
             decide ((shown.splitOn "\"upgrade\"").length ≤ 1)
+        -- completeness: a well-formed call (in any member order, with any spelling of "no parameters" the
+        -- variant must accept) may not be refused
+        | .obj ms, ["json"] => !SpecEnv.callMustDecode M ms
         | _, ["json"] => true
         | _, _ => false
       "M " ++ m ++ " | H " ++ (if h then "1" else "0")
